@@ -19,7 +19,7 @@ def parse(text):
     return EP.parse_expression(text)
 
 
-def run_stream(items, root=False):
+def run_stream(items, root=False, impl_outcomes=None):
     """items: [(text, txn, variables, data_sources, label)] → (n_compared, disagreements, stats)"""
     from tally import expr_parser as EP
     cases, impl, kept = [], [], []
@@ -36,7 +36,7 @@ def run_stream(items, root=False):
         if any(exprs.has_lone_surrogate(s) for s in [text]):
             continue
         cases.append({'expr': exprs.ast_json(tree.body), 'ctx': exprs.ctx_json(txn, variables, ds), 'convert_py': root})
-        impl.append(exprs.impl_eval(text, txn, variables, ds, root=root))
+        impl.append(impl_outcomes[text] if impl_outcomes is not None else exprs.impl_eval(text, txn, variables, ds, root=root))
         kept.append((text, txn, variables, ds, label))
     model = exprs.model_eval(cases)
     dis = []
